@@ -44,6 +44,42 @@ pub fn gen_cases(rep: &mut Report, n: usize, seed: u64, out: &str, ascii_ok: boo
             rep.case(&format!("{:?}{:?}{}", pat, h, start), true);
         }
     }
+    // back-references whose group lies on the far side of the cursor, with and without a gap (the
+    // compared ranges overlap, touch or are apart; read forwards and backwards), case-sensitive and not
+    let pats = [
+        "(X).*(?<=\\1)", "(X)Y*(?<=\\1)", "(?=..(X))\\1", "(?=.*(X)$)\\1", "(X)\\1", "(XY)\\1", "(?<=(X).*)\\1", "(?<=\\1(X))", "(X+)Y\\1", "(?=(X+))\\1Y",
+        "(?<=(?=\\1)(X).)",
+    ];
+    let letters = ["a", "b", "\u{e9}", "\u{10428}"];
+    let mut hs: Vec<String> = vec![String::new()];
+    let mut cur = vec![String::new()];
+    for _ in 0..4 {
+        let mut nxt = vec![];
+        for p in &cur {
+            for c in ["a", "b", "\u{e9}"] {
+                nxt.push(format!("{}{}", p, c));
+            }
+        }
+        hs.extend(nxt.iter().cloned());
+        cur = nxt;
+    }
+    for p in pats {
+        for x in letters {
+            for y in ["a", "b"] {
+                let pat: Vec<u32> = p.replace('X', x).replace('Y', y).chars().map(|c| c as u32).collect();
+                for fl in ["-", "i", "u"] {
+                    for h in hs.iter() {
+                        if h.chars().count() < 2 || !rng.chance(1, 3) {
+                            continue;
+                        }
+                        let hc: Vec<u32> = h.chars().map(|c| c as u32).collect();
+                        writeln!(f, "{} {} {} 0", fl, ast::cps_hex(&pat), ast::cps_hex(&hc)).unwrap();
+                        rep.case(&format!("{:?}{:?}", pat, hc), true);
+                    }
+                }
+            }
+        }
+    }
     f.flush().unwrap();
 }
 
